@@ -518,6 +518,7 @@ func C08(ctx *core.Ctx) {
 		return
 	}
 	c08VariablesKeepOrder(ctx, cc)
+	c08NoBlanketRemoval(ctx, cc, "C08.R12")
 	ctx.Rule("C08.R1", "same-language agreement and shape: each emitted topic is [prefix, Title(Scope), Delim, Op]", 9)
 	ctx.Rule("C08.R2", "emitted identifiers resolve: op = operation name, prefix = the prefix helper of the scope, delimiter constant = «Delim» evaluated at generation time", 20)
 	ctx.Rule("C08.R3", "prefix helpers: every non-empty template is prefix text followed by «Delim», empty prefix gives the empty string", 4)
